@@ -1436,15 +1436,25 @@ impl<'a, M: Matcher, W: WriteColor> StandardImpl<'a, M, W> {
         if this_search_written {
             return Ok(());
         }
+        self.write_search_separator()?;
+        if self.config().heading {
+            self.write_path_line()?;
+        }
+        Ok(())
+    }
+
+    /// Write the separator between the results of two searches, if one is
+    /// configured and an earlier search has printed something.
+    ///
+    /// Callers must ensure that the current search has not printed anything
+    /// yet.
+    fn write_search_separator(&self) -> io::Result<()> {
         if let Some(ref sep) = *self.config().separator_search {
             let ever_written = self.wtr().borrow().total_count() > 0;
             if ever_written {
                 self.write(sep)?;
                 self.write_line_term()?;
             }
-        }
-        if self.config().heading {
-            self.write_path_line()?;
         }
         Ok(())
     }
@@ -1455,6 +1465,13 @@ impl<'a, M: Matcher, W: WriteColor> StandardImpl<'a, M, W> {
         }
 
         let bin = self.searcher.binary_detection();
+        // When this message is all that is printed for this search, the
+        // separator between searches still belongs in front of it.
+        if (bin.quit_byte().is_some() || bin.convert_byte().is_some())
+            && self.wtr().borrow().count() == 0
+        {
+            self.write_search_separator()?;
+        }
         if let Some(byte) = bin.quit_byte() {
             if let Some(path) = self.path() {
                 self.write_path_hyperlink(path)?;
